@@ -626,7 +626,10 @@ func shortCallBesideLongOnes(r *lib.Run, scratch, workerCopy string, wb []byte) 
 		}
 		t0 := time.Now()
 		done := make(chan error, 1)
-		go func() { _, err := p.DescribeKey(ctx, &pf.DescribeKeyRequest{ContractVersion: "1.0", KeyID: "k"}); done <- err }()
+		go func() {
+			_, err := p.DescribeKey(ctx, &pf.DescribeKeyRequest{ContractVersion: "1.0", KeyID: "k"})
+			done <- err
+		}()
 		r.Eval("short-call-beside-long-ones|" + how)
 		r.Event("short-calls-beside-long-ones")
 		select {
